@@ -483,6 +483,63 @@ theorem phrase_list_complete {p : PhraseSel} {d : D} {l : L} {key : List Nat} {c
     intro ph hph; rw [← hc]
     exact List.mem_map_of_mem hph
 
+/-! ### F40: the highlighted range is not always made of syllables -/
+
+/-- the full-strength claim behind "exactly the highlighted syllables": in every state reached by a
+    history, the range of an open phrase list consists of syllables -/
+def range_is_syllables_full : Prop :=
+  ∀ (D L : Type) (env : Env D L) (e e' : Editor D L) (ops : List (Op L)) (s : Selecting) (p : PhraseSel),
+    e.state = .entering → e.run env ops = .ok e' → e'.state = .selecting s → s.sel = .phrase p →
+    ∃ key, RangeIs p key
+
+/-- a layout whose keys 32, Space spell syllable 1; one word for it -/
+def f40Env : Env Unit Nat :=
+  { toyEnv with
+    lookupAll := fun _ k _ => if k = [1] then [⟨[28204], 1, none⟩] else []
+    keyPress := fun l ev => if ev.code = 32 then (.absorb, 1) else if ev.code = 48 then (.commit, l) else (.keyError, l)
+    read := fun _ => 1 }
+
+/-- simple engine, buffer "？" with the cursor in front of it -/
+def f40Start : Editor Unit Nat :=
+  { shared := { syl := 0, dict := (),
+                com := { cursor := 0, inner := { symbols := [.chr 65311], gaps := [.begin] } },
+                options := { conversionEngine := .simple } } }
+
+/-- type one syllable (the simple engine opens its single-word list), then `chewing_cand_list_first` -/
+def f40Ops : List (Op Nat) :=
+  [.key { index := 32, code := 32, unicode := 104 }, .key { index := 48, code := 48, unicode := 32 }, .jump 0]
+
+/-- **F40** (known finding): after `jump_to_first_selection_point` on the simple engine's single-word
+    list the range is `syllable + "？"`, yet the list is the one of the leading syllable -/
+theorem f40_witness :
+    ∃ (e' : Editor Unit Nat) (s : Selecting) (p : PhraseSel),
+      f40Start.run f40Env f40Ops = .ok e' ∧ e'.state = .selecting s ∧ s.sel = .phrase p ∧
+      p.begin_ = 0 ∧ p.end_ = 2 ∧ p.com.symbols = [.syl 1, .chr 65311] ∧
+      Selecting.candidates f40Env s e'.shared = .ok [[28204]] :=
+  ⟨_, _, _, rfl, rfl, rfl, rfl, rfl, rfl, rfl⟩
+
+theorem range_is_syllables_refuted : ¬ range_is_syllables_full := by
+  intro h
+  obtain ⟨e', s, p, hrun, hs, hsel, hb, he, hsym, _⟩ := f40_witness
+  obtain ⟨key, hk⟩ := h Unit Nat f40Env f40Start e' f40Ops s p rfl hrun hs hsel
+  unfold RangeIs sliceSyms at hk
+  rw [hb, he, hsym] at hk
+  simp only [List.length_cons, List.length_nil] at hk
+  injection hk with hk
+  match key, hk with
+  | [], hk => cases hk
+  | [_], hk => cases hk
+  | _ :: _ :: _, hk => simp at hk
+
+/-- `_partial`: whenever the range *is* made of syllables — which `phrase_list_complete` takes as its
+    premise `RangeIs` — the list is complete; the premise holds right after every opening by Down /
+    Space / `chewing_cand_open` for the first symbol (`init_range`: the dictionary has a phrase for the
+    leading syllables of a non-empty range), and is checked on every step of every generated history
+    by the oracle, F40 being the only class of exceptions observed -/
+theorem phrase_list_complete_partial {p : PhraseSel} {d : D} {l : L} {key : List Nat} {cs : List Text}
+    (hr : RangeIs p key) (hc : PhraseSel.candidates env p d l = .ok cs) :
+    ∀ ph ∈ env.lookupAll d key p.strategy, ph.text ∈ cs := (phrase_list_complete env hr hc).2.2
+
 /-! ## non-vacuity -/
 
 /-- the list the witness history opens: two candidates, one per page, two pages, in range on page 0 and 1 -/
